@@ -16,10 +16,10 @@ func VerifHarness_C02_TFIDF() {
 	q := []string{"aa bb cc", "aa aa bb cc cc cc", "bb cc dd"}[verifIntRange("query", 0, 2)]
 	s1 := NewTFIDFSearcher(cmds) // reference: insertion order
 	r1 := s1.Search(q, 5)
-	verifMapOrder(3)
-	s2 := NewTFIDFSearcher(cmds) // every order of the 3-entry maps
-	r2 := s2.Search(q, 5)
-	verifMapOrder(1)
+	verifMapOrderBig(true)
+	s2 := NewTFIDFSearcher(cmds) // every map walked forwards or backwards (independently per range)
+	verifMapOrderBig(false)
+	r2 := s2.Search(q, 5) // the search side is varied in TFIDFSearch
 	for i := range s1.commandNorms {
 		verifAssert(c02Same(s1.commandNorms[i], s2.commandNorms[i]), "C02: TF-IDF document norms do not depend on map iteration order")
 	}
